@@ -846,6 +846,196 @@ def r19_a_keyword_ends_at_any_blank(ctx, rule="C09.R19"):
     ctx.require(rule, 1)
 
 
+def _fn_consts(f):
+    """(token types, characters) mentioned as constants by a function, its promoted constants"""
+    tt, chars = set(), set()
+
+    def opk(o):
+        k = o.get("k") if isinstance(o, dict) else None
+        if isinstance(k, dict) and k.get("ty") == "char" and "int" in k:
+            chars.add(chr(k["int"]))
+    for body in [f.body] + list(f.promoted):
+        for blk in body.blocks:
+            for st in blk["s"]:
+                if st["k"] != "assign":
+                    continue
+                r = st["r"]
+                if r.get("k") == "agg" and (r.get("adt") or "").endswith("::TokenType"):
+                    tt.add(r["variant"])
+                for kk in ("o", "a", "b"):
+                    if kk in r and isinstance(r[kk], dict):
+                        opk(r[kk])
+                for o in r.get("ops", []):
+                    opk(o)
+            t = blk["t"]
+            if t["k"] == "call":
+                for a in t["args"]:
+                    opk(a)
+    return tt, chars
+
+
+_WRAPPERS = ("lead_opt_ws", "lead_ws", "padded_by_ws")
+_SEQ = ("and", "and_keep_left", "and_keep_right", "and_tuple", "and_opt", "then_demand")
+# combinators that keep their one parser at the head of what they make
+_HEAD_OK = ("map", "and_then", "to_option", "or_expected", "many", "many_allow_none", "zero_or_more", "one_or_more",
+            "to_fatal", "with_pos", "peek", "or_default", "filter", "filter_map", "map_to_unit", "boxed", "flat_map",
+            "with_expected_message", "no_context", "map_err", "or_fail", "or_syntax_error")
+
+
+def r20_colon_separator_follows_optional_blanks(ctx, rule="C09.R20"):
+    """`the amount of blanks or tabs where one is allowed` / `separated by a newline or a colon`: blanks may stand
+    in front of the colon that separates two statements (`a = 1 : b = 2`) exactly as they may stand at the end of
+    a line.  Every parser made from a token class that contains ':' (and no blank class of its own) is followed
+    from the function that makes it, through the combinators it is handed to and the functions that return it,
+    until it is put behind something that skips optional blanks (lead_opt_ws / lead_ws / padded_by_ws, or the
+    second place of a sequence whose first part is a blank-skipping repetition).  A separator that reaches a
+    delimited list, a choice or the return of a public parser without that is reported.  The label parser is
+    the one place where the colon must be adjacent (C09.R16) and ends the walk."""
+    prog = ctx.prog
+    pf = [f for f in prog.fns.values() if f.crate == "rusty_parser" and f.kind != "const"]
+    consts = {}
+    for f in pf:
+        o = prog.enclosing_fn(f) or f
+        tt, ch = _fn_consts(f)
+        acc = consts.setdefault(o.id, [set(), set(), o])
+        acc[0] |= tt
+        acc[1] |= ch
+    blank_fns = {i for i, (tt, ch, o) in consts.items() if "Whitespace" in tt}
+    label_builders = set()
+    for f in pf:
+        for blk in f.body.blocks:
+            for st in blk["s"]:
+                r = st.get("r", {})
+                if st["k"] == "assign" and r.get("k") == "agg" and (r.get("adt") or "").endswith("::Statement") \
+                        and r.get("variant") == "Label":
+                    label_builders.add((prog.enclosing_fn(f) or f).id)
+    bare = {}
+    for i, (tt, ch, o) in consts.items():
+        ty = o.body.locals[0]["ty"]
+        if ":" in ch and "Whitespace" not in tt and "Parser" in ty + " Parser" and \
+                ("AnyTokenOf" in ty or "Parser<" in ty) and not ty.startswith("rusty_pc::SurroundParser<"):
+            bare[i] = "a token class with ':'"
+    if not bare:
+        raise CheckError("%s: no parser of the colon found" % rule)
+    callers = prog.callers()
+    work = sorted(bare)
+    done = set()
+    n = 0
+    while work:
+        fid = work.pop(0)
+        if fid in done:
+            continue
+        done.add(fid)
+        F = prog.fns[fid]
+        for cid in sorted(callers.get(fid, ())):
+            g = prog.fns.get(cid)
+            if g is None or g.crate != "rusty_parser" or g.body is None:
+                continue
+            body = g.body
+            owner = prog.enclosing_fn(g) or g
+            for b0, t0 in body.calls():
+                if mir.callee_of(t0) != fid:
+                    continue
+                n += 1
+                key = "%s:%s<-%s" % (rule, owner.path.split("::", 1)[1], F.name)
+                if owner.id in label_builders:
+                    ctx.ok(rule, key, owner.loc, "the label parser: the colon must be adjacent to the name (C09.R16)")
+                    continue
+                tainted = {t0["d"][0]}
+                wrapped, sinks, returned = [], [], False
+                changed = True
+                pv = mir.Prov(body)
+                while changed:
+                    changed = False
+                    for b, blk in enumerate(body.blocks):
+                        if body.is_cleanup(b):
+                            continue
+                        for st in blk["s"]:
+                            if st["k"] != "assign":
+                                continue
+                            r = st["r"]
+                            ops = [r[k] for k in ("o", "a", "b") if isinstance(r.get(k), dict)] + list(r.get("ops", []))
+                            pls = [mir.op_place(o) for o in ops] + ([r["p"]] if "p" in r else [])
+                            if any(p is not None and p[0] in tainted for p in pls) and st["p"][0] not in tainted:
+                                tainted.add(st["p"][0])
+                                changed = True
+                                if st["p"][1] and st["p"][1][0] == "*":
+                                    # a store through a pointer (vec![..] fills its box this way): what the
+                                    # pointer was made from holds the value too
+                                    stack = [st["p"][0]]
+                                    while stack:
+                                        l0 = stack.pop()
+                                        ds = [x for x in body.defs().get(l0, []) if not body.is_cleanup(x[0])
+                                              and not (x[2]["p"] if x[1] != "T" else x[2]["d"])[1]]
+                                        d = ds[0] if len(ds) == 1 else None
+                                        if d is None or d[1] == "T" or d[2]["r"].get("k") not in ("cast", "use", "ref", "rawptr", "copyderef"):
+                                            continue
+                                        r2 = d[2]["r"]
+                                        p2 = mir.op_place(r2["o"]) if "o" in r2 else r2.get("p")
+                                        if p2 is not None and p2[0] not in tainted:
+                                            tainted.add(p2[0])
+                                            stack.append(p2[0])
+                        t = blk["t"]
+                        if t["k"] != "call" or (b, "seen") in tainted:
+                            continue
+                        idx = [i for i, a in enumerate(t["args"]) if mir.op_place(a) is not None and mir.op_place(a)[0] in tainted]
+                        if not idx:
+                            continue
+                        tainted.add((b, "seen"))
+                        changed = True
+                        name = mir.callee_path(t).split("::")[-1]
+                        if name in _WRAPPERS:
+                            wrapped.append(name)
+                            continue
+                        cpath = mir.callee_path(t)
+                        if (name in _SEQ or name.startswith("delimited_by")) and max(idx) == 0:
+                            pass
+                        elif (name in _SEQ or name.startswith("delimited_by")) and max(idx) >= 1:
+                            # not at the head of the sequence: whatever stands in front of it has to skip the blanks
+                            o0 = mir.strip_all(pv.of_operand(t["args"][0]))
+                            c0 = None
+                            if o0[0] == "call" and name in _SEQ:
+                                c0 = next((x for x in prog.fns.values() if x.path == o0[1] or x.id == o0[1]), None)
+                            if c0 is not None and (prog.enclosing_fn(c0) or c0).id in blank_fns:
+                                wrapped.append("%s after %s" % (name, c0.name))
+                            else:
+                                sinks.append("%s, place %d (line %s)" % (name, max(idx), t.get("ln", "?")))
+                            if 0 not in idx:
+                                continue
+                        elif ("rusty_pc::" in cpath or "::pc_specific::" in cpath) and name not in _HEAD_OK and \
+                                not name.startswith("or") and name != "new":
+                            sinks.append("%s (a combinator this rule has no reading of)" % name)
+                            continue
+                        tainted.add(t["d"][0])
+                if 0 in tainted:
+                    returned = True
+                if returned and g.kind != "closure" and not sinks:
+                    if g.id not in done:
+                        bare[g.id] = "returns what %s makes" % F.name
+                        work.append(g.id)
+                        work.sort()
+                    if not callers.get(g.id):
+                        ctx.violation(rule, key, owner.loc,
+                                      "%s returns the colon parser of %s with no blank skipping in front and nothing "
+                                      "was found that uses it" % (g.name, F.name), {})
+                    else:
+                        ctx.ok(rule, key, owner.loc, "handed on: %s is followed at its own users" % g.name)
+                    continue
+                if sinks:
+                    ctx.violation(rule, key, owner.loc,
+                                  "%s puts the parser of ':' made by %s (%s) behind another parser with no optional blanks "
+                                  "in between (%s): `IF x THEN a = 1 : b = 2` - a blank before the colon - is read "
+                                  "differently from `a = 1: b = 2` and from the same statements on two lines"
+                                  % (owner.name, F.name, bare.get(fid, ""), "; ".join(sinks)), {})
+                    continue
+                ctx.decide(bool(wrapped) and not returned, rule, key, owner.loc,
+                           "the parser of ':' made by %s is put behind optional blanks (%s)" % (F.name, ", ".join(wrapped)),
+                           "%s uses the parser of ':' made by %s (%s) without skipping optional blanks in front of it: "
+                           "`a = 1 : b = 2` (a blank before the colon) is read differently from `a = 1: b = 2` and from "
+                           "the same statements on two lines" % (owner.name, F.name, bare.get(fid, "")))
+    ctx.require(rule, 8)
+
+
 def run(ctx):
     common.install(ctx)
     r1_folding_pair(ctx)
@@ -869,3 +1059,4 @@ def run(ctx):
     r17_one_definition_of_line_end(ctx)
     r18_no_container_keyed_by_raw_text(ctx)
     r19_a_keyword_ends_at_any_blank(ctx)
+    r20_colon_separator_follows_optional_blanks(ctx)
